@@ -122,10 +122,28 @@ func codecMain(args []string) {
 			md.Status = &status.Status{Code: int32(r.Intn(17)), Message: "with details", Details: []*anypb.Any{d}}
 		}
 		payload := randMsg(r, name)
+		// fields the receiver's version of the message type does not declare travel along (a peer built from a newer
+		// .proto): they are part of the message and must survive the round trip
+		unk := ""
+		if r.Intn(3) == 0 {
+			var raw []byte
+			raw = protowire.AppendTag(raw, protowire.Number(1000+r.Intn(1000)), protowire.VarintType)
+			raw = protowire.AppendVarint(raw, r.Uint64()>>uint(r.Intn(64)))
+			if r.Intn(2) == 0 {
+				raw = protowire.AppendTag(raw, protowire.Number(3000+r.Intn(100)), protowire.BytesType)
+				raw = protowire.AppendBytes(raw, []byte(randText(r)))
+			}
+			payload.ProtoReflect().SetUnknown(raw)
+			unk = "+unknown-fields"
+			if r.Intn(3) == 0 {
+				md.ProtoReflect().SetUnknown(protowire.AppendVarint(protowire.AppendTag(nil, 777, protowire.VarintType), 42))
+				unk += "+md"
+			}
+		}
 		msg := gorums.VerifNewMessage(isReq)
 		msg.Metadata, msg.Message = md, payload
 		b, err, pan := safeMarshal(msg)
-		caseS := fmt.Sprintf("valid method=%s req=%v id=%d", m.FullName(), isReq, md.MessageID)
+		caseS := fmt.Sprintf("valid%s method=%s req=%v id=%d", unk, m.FullName(), isReq, md.MessageID)
 		if err != nil || pan != "" {
 			sum.mismatch(Mismatch{Property: "C13", Case: caseS, Expected: "Marshal succeeds", Observed: fmt.Sprint(err, pan)})
 			continue
@@ -157,7 +175,7 @@ func codecMain(args []string) {
 				sum.mismatch(Mismatch{Property: "C13", Case: caseS, Expected: "equal message and metadata", Observed: "differs after round trip"})
 			}
 		}()
-		sum.count("valid")
+		sum.count("valid" + unk)
 		addDec(isReq, b, "valid")
 		// derived malformed frames
 		switch r.Intn(6) {
